@@ -877,7 +877,7 @@ func main() {
 	}
 	cov := report.Coverage{
 		"scenarios_abandoned_with_a_check_error": checkErrs,
-		"states": points, "transitions": points, "traces_validated_against_impl": execs,
+		"states":                                 points, "transitions": points, "traces_validated_against_impl": execs,
 		"schedules": execs, "scenarios": len(items), "preemption_bound_completed_all_scenarios": minBound,
 		"preemption_bound_target": bound, "distinct_histories": outcomes, "determinism_double_runs": dbl,
 		"exhaustive": complete, "samples": samples, "per_scenario": per,
